@@ -198,4 +198,23 @@ Proof.
   intros Hp H E. unfold age_test. rewrite E. rewrite age_whole_periods by assumption.
   rewrite imatches_nonneg; [reflexivity|]. apply Z.div_pos; lia.
 Qed.
+(* a timestamp in the future: the value is negative (one period below the whole periods of the
+   distance), so N and +N are false and -N is true for every N *)
+Theorem age_future period now ts : 0 < period -> now < ts ->
+  age_units period now ts = - ((ts - now) / 1000000000 / period) - 1 /\ age_units period now ts < 0.
+Proof.
+  intros Hp H. unfold age_units. destruct (Z.leb_spec 0 (now - ts)); [lia|].
+  replace (- (now - ts)) with (ts - now) by lia.
+  assert (Ha : 0 <= (ts - now) / 1000000000) by (apply Z.div_pos; lia).
+  set (a := (ts - now) / 1000000000) in *. clearbody a.
+  rewrite Z.quot_opp_l by lia. rewrite Z.quot_div_nonneg by lia.
+  assert (0 <= a / period) by (apply Z.div_pos; lia). split; lia.
+Qed.
+Theorem age_test_future period operand now ts c : 0 < period -> now < ts -> parse_cv_plain operand = Some c ->
+  age_test period operand now ts = Some (match c with LessThan _ => true | _ => false end).
+Proof.
+  intros Hp H E. unfold age_test. rewrite E. destruct (age_future period now ts Hp H) as [_ L].
+  set (v := age_units period now ts) in *. clearbody v. f_equal.
+  destruct c; cbn; [destruct (Z.leb_spec 0 v)|destruct (Z.leb_spec 0 v)|destruct (Z.ltb_spec v 0)]; try lia; reflexivity.
+Qed.
 Theorem newer_strict e r : newer e r = true <-> r < e. Proof. apply Z.ltb_lt. Qed.
